@@ -140,10 +140,16 @@ class SeqCheck:
         return ctx.finish('proof', cov)
 
     def minimise(self, ctx, d, pred=None):
+        """delta-debugging; a failure of the minimiser itself never hides the failing input it started from"""
+        try: return self._minimise(ctx, d, pred)
+        except Exception as ex:
+            ctx.notes['minimiser_failed'] = str(ex)[:300]
+            return d
+    def _minimise(self, ctx, d, pred=None):
         """delta-debugging, one operation at a time: drop every operation whose removal keeps the same failure at the last step"""
         pred = pred or self.pred
         runner = getattr(self, '_runner', None)
-        if runner is None or d.idx < 1 or d.suite in ('arand',) or 'vmem=1' in (d.cfg or ''): return d
+        if runner is None or d.idx < 1 or d.suite in ('arand', 'varand') or 'vmem=1' in (d.cfg or '') or 'kind=async' in (d.cfg or ''): return d
         mode = 'seq'
         cur = d.prefix()
         trials = 0
